@@ -7,6 +7,8 @@ the unit expression tree is walked here, names are resolved by vf/ref/names.py, 
 dimension vectors from vf/ref/defs.py, scales of atomic symbols are read as DATA from the registry's table (the unit table
 itself is C02's subject); published values, the name -> constant map, the Gaussian pairing, the unit sets of the unit
 systems and the defining relations are in vf/ref/c15_consts.py.  No conversion routine of unyt is called by the oracle.
+Every guise is also *used as a unit* (conversion target of to / in_units / to_value / convert_to_units, divisor, Unit(q)): the
+number a probe measures in it is compared with probe/constant computed from the harness's own readings of both objects.
 """
 import math
 from fractions import Fraction as Fr
@@ -25,9 +27,16 @@ RULE = ("one evaluation = one judged observation: (a) guise: a constant under on
         "the start of the history) is byte-for-byte what it was before the call (class, dtype, shape, buffer bytes, writeable flag, name, "
         "unit expression, unit base value, offset, dimensions, registry); every 1000 calls and after each re-materialisation all tracked "
         "objects are compared (bystanders); (g) after-use: at the end of the history each tracked object against the snapshot taken "
-        "before the first call, each namespace binding, and (a)-(e) again in the same process (namespace kinds '...:after-use'). "
+        "before the first call, each namespace binding, and (a)-(e) again in the same process (namespace kinds '...:after-use'); "
+        "(h) as-unit: one use of a guise as a unit / conversion target - call form {x.to(q), x.in_units(q), x.to_value(q), "
+        "x.convert_to_units(q) on a temporary, (x/q).to('dimensionless'), x.to(Unit(q, registry=q's registry))} x probe x {in the units of "
+        "each sibling guise plain/_mks/_cgs, in coherent SI base units of the guise's dimension in the default and in the namespace's "
+        "registry, in the documented partner unit C/statC for charges}: the number measured equals probe/constant, both read by the "
+        "harness (value x unit expression walked here), within 4 ulp x (unit factors of both + 4); the Unit object the library made of "
+        "the constant (result units, Unit(q)) has the constant's dimension and size (base_value and expression, read as data); and a "
+        "unit of the same name and dimension in the namespace's registry measures the same number as the constant; "
         "distinct = (sub-monitor, constant or relation, name, suffix, namespace kind) tuples; for (f) (call template, operand position, "
-        "operand kind, kind of the other operand)")
+        "operand kind, kind of the other operand); for (h) (call form, probe kind, constant, suffix, namespace kind)")
 ASSUMPTIONS = (
     "vf/ref/c15_consts.py (own transcription: CODATA 2018 values, uncertainty classes = spread of CODATA 1986-2018 adjustments, IAU 2015 "
     "nominal GM / CODATA G, planet GM of the NASA fact sheets, which name belongs to which constant, unit sets of the 7 unit systems) is the trusted base",
@@ -56,6 +65,19 @@ ASSUMPTIONS = (
     "unyt_array(x), np.asarray(x)); the harness does overwrite results the documentation calls copies (.to/.in_units/.in_base/.in_cgs/"
     ".in_mks/.v/.value/.to_ndarray/.copy/copy.copy/pickle, arithmetic results, np.array/np.copy/stack/concatenate results)",
     "an equal but different Unit object attached to a constant is the same quantity (note, not a violation)",
+    "as-unit: 'denotes one physical quantity' includes being used as a unit, the documented use of a quantity as a conversion target "
+    "(x.to(Msun), x.to_value(c)): the number measured is probe/constant whatever registry or unit system the constant was built for; the "
+    "oracle's probe and constant magnitudes are the harness's own readings (number x walked unit expression, atom scales read as data "
+    "from the registry table of the object), never a unyt conversion",
+    "as-unit: Unit(q) is given the constant's own registry (Unit(q) without one re-reads the spelling of q's units in the default "
+    "registry, which is a different question for code units and edited registries)",
+    "as-unit: across the two electromagnetic families only the documented pairing is demanded (C <-> statC through 1 C = c/10 statC); a "
+    "conversion between families that raises (compound units: unyt documents that only simple E&M units convert) is a note, a raise "
+    "within one dimension is a violation; x[C] / q[statC] is not a pure number in unyt's model, so the ratio form is not judged across families",
+    "as-unit: a unit of the same name that the registry's owner redefined (registry.modify: table value differs from the default table) "
+    "is not compared with the constant; every combination (probe kind x call form) is driven for the canonical names in the enumerated "
+    "namespaces (module, top-level, default, 7 built-in systems, added, modified), elsewhere by rotation two combinations per canonical "
+    "guise and one per alias guise (thorough tier: alias guises in every fourth generated system only)",
     "a driven call that does not return within 10 s of wall clock (1 s after five such calls) is abandoned and counted, never judged; a "
     "damaged constant is not restored, so later alarms of the same history may be consequences of the first (keys name call and operand)",
 )
@@ -153,6 +175,10 @@ def batches(tier, seed):
         spec = _custom(i, "rand", pick)
         if _in_float_range(spec):
             specs.append(spec)
+    if tier != "quick":     # as-unit on the alias names of the sampled (generated) systems: every fourth system in the thorough tier
+        for i, spec in enumerate(specs):
+            if spec["kind"] in ("code", "custom") and i % 4:
+                spec["asunit_alias"] = 0
     per = 8 if tier == "quick" else 40
     for i in range(0, len(specs), per):
         b.append(("registries/%d" % (i // per), ("registries", specs[i:i + per])))
@@ -350,23 +376,242 @@ def judge_guise(unyt, rec, A, obj, canon, name, suffix, ns, system_units, lut, e
     return o
 
 
-def judge_namespace(unyt, rec, A, get, ns, system_units, lut, extra, has_current, track):
+def judge_namespace(unyt, rec, A, get, ns, system_units, lut, extra, has_current, track, asunit=None):
     """all reference names x suffixes in one namespace; get(name) -> object or None. Returns SI magnitudes of the _mks guises
-    and raw numbers of the _cgs guises (canonical names) for the relation monitor."""
+    and raw numbers of the _cgs guises (canonical names) for the relation monitor.  asunit = {"reg": registry of the namespace,
+    "full": bool} switches on the 'constant used as a unit' sub-monitor for every guise of the namespace."""
     mks, cgs = {}, {}
     for canon, c in K.C.items():
         for name in c.names:
+            sib = {}
             for suffix in SUFFIXES:
-                o = judge_guise(unyt, rec, A, get(name + suffix), canon, name, suffix, ns, system_units, lut, extra, has_current, track)
+                obj = get(name + suffix)
+                o = judge_guise(unyt, rec, A, obj, canon, name, suffix, ns, system_units, lut, extra, has_current, track)
+                if o is not None and isinstance(obj, unyt.unyt_quantity):
+                    sib[suffix] = (obj, o)
                 if o is not None and name == canon:
                     if suffix == "_mks":
                         mks[canon] = o["mag"]
                     elif suffix == "_cgs":
                         cgs[canon] = (o["value"], o["atoms"])
+            if asunit is not None:
+                for suffix in sib:
+                    judge_as_unit(unyt, rec, canon, name, suffix, sib, ns, asunit, lut, extra, track)
         rec.reach("constant:" + canon)
     for legacy, (canon, suffix) in K.LEGACY.items():
         judge_guise(unyt, rec, A, get(legacy), canon, legacy, suffix, ns, system_units, lut, extra, has_current, track)
     return mks, cgs
+
+
+# ------------------------------------------------------------------ 'a constant used as a unit'
+AS_FORMS = ("to", "in_units", "to_value", "convert_to_units", "ratio", "Unit")
+SI_BASE = ("kg", "m", "s", "K", "rad", "A", "cd", None)
+PROBE_K = (3.0, 0.75, 7.0, 2.5, 1.0, 1.0e3, 0.1)
+
+
+def si_spelling(dim):
+    """coherent SI base-unit spelling of a dimension vector ('kg**(1/2)*m**(3/2)/s' style; Gaussian images have half powers)"""
+    parts = []
+    for i, x in enumerate(dim):
+        if x == 0:
+            continue
+        if SI_BASE[i] is None:
+            return None
+        parts.append(SI_BASE[i] if x == 1 else "%s**(%d/%d)" % (SI_BASE[i], x.numerator, x.denominator))
+    return "*".join(parts) or "dimensionless"
+
+
+def expected_measure(po, o):
+    """(number the probe must measure in the constant, family) from the harness's own readings of both; None if not commensurable"""
+    if po["dim"] == o["dim"]:
+        return po["mag"] / o["mag"], "same-dimension"
+    if po["dim"] in K.EM_PAIR and K.EM_PAIR[po["dim"]][0] == o["dim"]:
+        return po["mag"] * K.EM_PAIR[po["dim"]][1] / o["mag"], "si-probe-gaussian-constant"
+    if o["dim"] in K.EM_PAIR and K.EM_PAIR[o["dim"]][0] == po["dim"]:
+        return po["mag"] / K.EM_PAIR[o["dim"]][1] / o["mag"], "gaussian-probe-si-constant"
+    return None, None
+
+
+def as_unit_probes(unyt, canon, suffix, sib, reg, lut, extra, dlut, rot):
+    """-> [(probe kind, thunk building a fresh probe quantity, harness reading of it)]; probes are temporaries of the harness"""
+    uq = unyt.unyt_quantity
+    obj, o = sib[suffix]
+    out = []
+
+    def add(kind, value, units, registry, plut, pextra):
+        try:
+            mk = (lambda: uq(value, units, registry=registry)) if registry is not None else (lambda: uq(value, units))
+            po = observe(unyt, mk(), plut, pextra)
+        except Exception:
+            return
+        out.append((kind, mk, po))
+    k = PROBE_K[rot % len(PROBE_K)]
+    # the value in the units of each sibling guise (own units, the SI spelling, the CGS/Gaussian spelling), same registry
+    for s2, (obj2, o2) in sib.items():
+        kind = "own-units" if s2 == suffix else "units-of-" + (s2 or "plain").strip("_") + "-guise"
+        add(kind, k * o2["value"], obj2.units, None, lut, extra)
+    # coherent SI base units of the constant's own dimension (a Gaussian guise: kg**(1/2)*m**(3/2)/s), default and same registry
+    sp = si_spelling(o["dim"])
+    if sp is not None and o["mag"] != 0 and math.isfinite(o["mag"]):
+        add("si-base:default-registry", 0.75 * k * o["mag"], sp, unyt.unit_registry.default_unit_registry, dlut, None)
+        add("si-base:same-registry", 7.0 * k * o["mag"], sp, reg, lut, extra)
+    # the documented partner family (only charges among the constants): C <-> statC
+    cd = K.C[canon].dim
+    if cd in K.EM_PAIR and cd == dims.D("I T"):
+        if o["dim"] == cd:
+            add("paired:statC", 2.5 * k * o["mag"] * K.EM_PAIR[cd][1] / (defs.T["statC"].value), "statC", reg, lut, extra)
+        else:
+            add("paired:C", 2.5 * k * o["mag"] / K.EM_PAIR[cd][1], "C", reg, lut, extra)
+    return out
+
+
+def as_unit_call(unyt, form, mk, q):
+    """one use of the constant q as a unit / conversion target -> (number measured, Unit object to judge or None)"""
+    p = mk()
+    if form == "to":
+        r = p.to(q)
+        return float(r.d), r.units
+    if form == "in_units":
+        r = p.in_units(q)
+        return float(r.d), r.units
+    if form == "to_value":
+        return float(p.to_value(q)), None
+    if form == "convert_to_units":
+        p.convert_to_units(q)          # in place on the harness's temporary; the constant is only read
+        return float(p.d), p.units
+    if form == "ratio":
+        return float((p / q).to("dimensionless").d), None
+    if form == "Unit":
+        u = unyt.Unit(q, registry=q.units.registry)
+        return float(p.to(u).d), u
+    raise ValueError(form)
+
+
+def as_unit_cfg(unyt, reg, full, reduced, alias=1):
+    """full: every probe x every call form for the canonical names (aliases: `reduced` (form, probe) pairs by rotation);
+    otherwise `reduced` pairs by rotation for the canonical names and `alias` pairs for the alias names"""
+    return {"reg": reg, "dlut": unyt.unit_registry.default_unit_registry.lut, "full": full, "reduced": reduced, "alias": alias}
+
+
+def judge_as_unit(unyt, rec, canon, name, suffix, sib, ns, cfg, lut, extra, track):
+    """the guise name+suffix of one namespace used as a unit: a probe measured in it must give probe/constant (both read by the
+    harness), the Unit the library makes of it must carry the constant's size, and a unit of the same name must agree"""
+    obj, o = sib[suffix]
+    sfx = suffix or "plain"
+    if not (o["mag"] != 0 and math.isfinite(o["mag"])):
+        return
+    rot = cfg["_rot"] = cfg.get("_rot", -1) + 1
+    reg = cfg["reg"]
+    dlut = cfg["dlut"]
+    probes = as_unit_probes(unyt, canon, suffix, sib, reg, lut, extra, dlut, rot)
+    full = cfg["full"] and name == canon
+    if full:
+        plan = [(f, pr) for pr in probes for f in AS_FORMS]
+    else:
+        n = len(probes)
+        npairs = cfg["reduced"] if (name == canon or cfg["full"]) else cfg["alias"]
+        if npairs == 0:
+            return
+        plan = [(AS_FORMS[(rot + j * 3) % 6], probes[(rot + j * 2) % n]) for j in range(npairs)] if n else []
+    q = obj
+    nat = len(o["atoms"])
+    for form, (pk, mk, po) in plan:
+        want, fam = expected_measure(po, o)
+        if want is None:
+            rec.count("as-unit:probe-not-commensurable")
+            continue
+        if form == "ratio" and fam != "same-dimension":
+            rec.note("as-unit:ratio-across-EM-families-is-not-a-pure-number-in-unyt")       # x[C] / q[statC] keeps the unit C/statC
+            continue
+        case = {"constant": canon, "name": name + suffix, "namespace": ns, "form": form, "probe": pk, "probe_is": f"{po['value']!r} {po['unit']}",
+                "constant_is": f"{o['value']!r} {o['unit']}"}
+        try:
+            got, u = as_unit_call(unyt, form, mk, q)
+        except Exception as e:
+            if fam != "same-dimension":
+                rec.note(f"as-unit:{form}:raises:{type(e).__name__}:{fam}")      # limited E&M conversion support (documented)
+                rec.count("as-unit-raised:cross-family")
+                continue
+            rec.violation(f"C15:as-unit:{form}:raises:{type(e).__name__}:{sfx}:{ns}:{pk}",
+                          f"{ns}:{name}{suffix} = {obj!r} used as a unit: {form} of a probe {po['value']!r} {po['unit']} raised "
+                          f"{type(e).__name__}: {str(e)[:200]}", case)
+            continue
+        tol = 4 * ULP * (nat + len(po["atoms"]) + 4)
+        err = relerr(got, want)
+        track["max_as_unit_relerr_ulp"] = max(track.get("max_as_unit_relerr_ulp", 0.0), min(err / ULP, 1e18))
+        if err > tol:
+            rec.violation(f"C15:as-unit:{form}:measure-differs:{sfx}:{ns}:{pk}:{fam}",
+                          f"{ns}:{name}{suffix} = {obj!r} used as a unit: a probe of {po['value']!r} {po['unit']} ({po['mag']!r} in coherent "
+                          f"base units; the constant is {o['mag']!r}) measures {got!r} by '{form}', expected {want!r} (rel {err:.3g}, "
+                          f"allowed {tol:.2g})", case)
+        else:
+            rec.ok(("as-unit", form, pk, canon, sfx, ns))
+            rec.count("as-unit:" + form)
+            rec.count("as-unit-family:" + fam)
+            rec.count("as-unit-probe:" + pk.split(":")[0])
+        if u is not None:
+            # the Unit object the library made of the constant (result units of to/in_units/convert_to_units, Unit(constant))
+            bad = None
+            try:
+                atoms = []
+                sc, dm = eval_expr(u.expr, make_resolver(lut, extra, atoms))
+                ud = dims.of_expr(u.dimensions)
+                bv = float(u.base_value)
+                if dm != o["dim"] or ud != o["dim"]:
+                    bad = ("unit-dimension-differs", f"dimension {dims.show(ud)} (expression reads {dims.show(dm)}), the constant has {dims.show(o['dim'])}")
+                elif relerr(bv, o["mag"]) > tol:
+                    bad = ("unit-base-value-differs", f"base_value {bv!r}, the constant is {o['mag']!r} in coherent base units (rel {relerr(bv, o['mag']):.3g})")
+                elif relerr(sc, o["mag"]) > tol:
+                    bad = ("unit-expression-differs", f"expression {str(u.expr)!r} reads as {sc!r} in coherent base units, the constant is {o['mag']!r}")
+            except Unreadable as e:
+                bad = ("unit-unreadable", str(e))
+            if bad:
+                rec.violation(f"C15:as-unit:{form}:{bad[0]}:{sfx}:{ns}", f"{ns}:{name}{suffix} = {obj!r} used as a unit by '{form}' gives the "
+                              f"Unit {u!r}: {bad[1]}", case)
+            else:
+                rec.ok(("as-unit-unit", form, canon, sfx, ns))
+                rec.count("as-unit-unit:" + form)
+    # ---- a unit of the same name in the registry of the namespace must measure the same number
+    cache = cfg.setdefault("_units", {})
+    if name not in cache:
+        try:
+            un = unyt.Unit(name, registry=reg)
+            if not isinstance(un, unyt.Unit):
+                un = None
+        except Exception:
+            un = None
+        if un is not None:
+            r_ = names.resolve(name)
+            if r_ is not None and dlut.get(r_[1]) is not None and lut.get(r_[1]) is not None and lut[r_[1]][0] != dlut[r_[1]][0]:
+                rec.note("as-unit:unit-of-same-name-redefined-in-this-registry")
+                un = None
+        cache[name] = un
+    un = cache[name]
+    if un is None or not probes:
+        return
+    if dims.of_expr(un.dimensions) != o["dim"]:
+        rec.count("as-unit:same-name-unit-of-other-dimension")
+        return
+    for pk, mk, po in (probes if full else probes[rot % len(probes):][:1]):
+        if po["dim"] != o["dim"]:
+            continue
+        try:
+            n_c = float(mk().to_value(q))
+            n_u = float(mk().to_value(un))
+        except Exception as e:
+            rec.violation(f"C15:as-unit:unit-of-same-name:raises:{type(e).__name__}:{sfx}:{ns}", f"{ns}:{name}{suffix} = {obj!r} and the unit "
+                          f"{name!r}: to_value raised {type(e).__name__}: {str(e)[:200]}", {"name": name + suffix, "namespace": ns})
+            continue
+        tol = 4 * ULP * (nat + len(po["atoms"]) + 4)
+        err = relerr(n_c, n_u)
+        if err > tol:
+            rec.violation(f"C15:as-unit:unit-of-same-name:measure-differs:{canon}",
+                          f"a probe of {po['value']!r} {po['unit']} measures {n_c!r} in the constant {ns}:{name}{suffix} = {obj!r} and {n_u!r} "
+                          f"in the unit {name!r} of the same registry (rel {err:.3g}): same name, different quantity",
+                          {"name": name + suffix, "namespace": ns, "probe": pk})
+        else:
+            rec.ok(("as-unit-same-name", canon, name, sfx, ns, pk))
+            rec.count("as-unit:unit-of-same-name")
 
 
 def judge_relations(rec, vals, ns, form, track, only=None):
@@ -801,7 +1046,8 @@ def worker(batch, rec):
     A = anchors(unyt, rec)
     dlut = unyt.unit_registry.default_unit_registry.lut
     if kind == "module":
-        mks, cgs = judge_namespace(unyt, rec, A, lambda n: getattr(pc, n, None), "module", K.SYSTEM_UNITS["mks"], dlut, None, True, track)
+        mks, cgs = judge_namespace(unyt, rec, A, lambda n: getattr(pc, n, None), "module", K.SYSTEM_UNITS["mks"], dlut, None, True, track,
+                                   asunit=as_unit_cfg(unyt, unyt.unit_registry.default_unit_registry, True, 2))
         judge_relations(rec, mks, "module", "SI", track)
         judge_relations(rec, cgs_raw(cgs), "module", "raw-CGS", track, only=K.MECHANICAL)
         # names exported by the module that the reference does not know
@@ -811,7 +1057,8 @@ def worker(batch, rec):
                 rec.note("exported-name-unknown-to-reference:" + n)
         rec.sample({"constant": "me", "guises": {n: repr(getattr(pc, n, None)) for n in ("me", "electron_mass_mks", "mass_electron_cgs")}})
     elif kind == "toplevel":
-        mks, cgs = judge_namespace(unyt, rec, A, lambda n: getattr(unyt, n, None), "toplevel", K.SYSTEM_UNITS["mks"], dlut, None, True, track)
+        mks, cgs = judge_namespace(unyt, rec, A, lambda n: getattr(unyt, n, None), "toplevel", K.SYSTEM_UNITS["mks"], dlut, None, True, track,
+                                   asunit=as_unit_cfg(unyt, unyt.unit_registry.default_unit_registry, True, 2))
         judge_relations(rec, mks, "toplevel", "SI", track)
         rec.sample({"toplevel": {n: repr(getattr(unyt, n, None)) for n in ("G", "hbar", "c", "mp", "Msun_cgs")}})
     elif kind == "relations":
@@ -848,7 +1095,9 @@ def worker(batch, rec):
                 rec.violation(f"C15:add_constants:raises:{ns}:{type(e).__name__}", f"add_constants(ns, registry) for {spec} raised "
                               f"{type(e).__name__}: {e}", spec)
                 continue
-            mks, cgs = judge_namespace(unyt, rec, A, space.get, ns, allowed, reg.lut, extra, has_current, track)
+            full = spec["kind"] in ("plain", "added", "modified") or (spec["kind"] == "system" and spec["how"] == "name")
+            mks, cgs = judge_namespace(unyt, rec, A, space.get, ns, allowed, reg.lut, extra, has_current, track,
+                                       asunit=as_unit_cfg(unyt, reg, full, 2, spec.get("asunit_alias", 1)))
             judge_relations(rec, mks, ns, "SI", track)
             judge_relations(rec, cgs_raw(cgs), ns, "raw-CGS", track, only=K.MECHANICAL)
             if spec["kind"] in ("plain", "system", "added") or (spec["kind"] in ("code", "custom") and spec["name"].endswith("0")):
@@ -884,6 +1133,11 @@ def extra(tier, seed, results):
     from vf.gen import c15_usage as UG
     fams = UG.FAMILIES + ("numpy-catalogue", "rematerialise")
     need += tuple("survive:" + f for f in fams) + tuple("usage-returned:" + f for f in fams)
+    # 'a constant used as a unit': every call form, every probe family, the Unit objects made of constants and the same-name units
+    need += tuple("as-unit:" + f for f in AS_FORMS) + tuple("as-unit-unit:" + f for f in ("to", "in_units", "convert_to_units", "Unit"))
+    need += ("as-unit-family:same-dimension", "as-unit-family:si-probe-gaussian-constant", "as-unit-family:gaussian-probe-si-constant",
+             "as-unit-probe:own-units", "as-unit-probe:si-base", "as-unit-probe:paired", "as-unit-probe:units-of-mks-guise",
+             "as-unit-probe:units-of-cgs-guise", "as-unit-probe:units-of-plain-guise", "as-unit:unit-of-same-name")
     need += ("survive:bystanders", "after-use:snapshot", "after-use:bindings", "after-use:coherence", "relation:SI:after-use",
              "relation:raw-CGS:after-use", "relation:SI-bare:after-use", "published:after-use")
     zero = [n for n in need if counters.get(n, 0) == 0]
